@@ -6,9 +6,11 @@
   Safety theorems quantify over every configuration and every state reachable by ANY label list (every
   interleaving, every outcome sequence incl. both kinds of panic, sender drop at any point). Liveness theorems are
   BOUNDED and need no fairness assumption: "every execution from `s` that contains more than K receiver steps
-  ends in the goal", where receiver steps are the labels `rxTake, rxBegin, rxOutcome _, rxRetryWaited,
-  rxIdleWaited` (an outcome / a timer expiry is a step of what the receiver awaits) and any number of sender
-  steps may be interleaved. A panicking callback is the same label as any other callback: they are drained
+  ends in the goal", where receiver steps are the LOOP labels `rxTake, rxBegin, rxOutcome _, rxRetryWaited,
+  rxIdleWaited` (an outcome / a timer expiry is a step of what the receiver awaits); the individual callback
+  invocations `rxFireTake` / `rxFireFlush` are separate labels that are NOT counted (so K does not depend on how
+  many callbacks are registered), and any number of sender steps may be interleaved anywhere — also between two
+  callbacks and between the last callback of an empty hand-off and the exit check. A panicking callback is the same label as any other callback: they are drained
   under `catch_unwind` (lib.rs:732-746), so the panic has no effect on the state.
 
   OBLIGATIONS (audited by `check` with `#print axioms`):
@@ -133,9 +135,9 @@ theorem drain_on_close (cfg : Cfg) (s : St) (h : Reachable cfg s) (ha : s.sender
     · simp [this hd] at ht
   have hpart := (invPart_reachable cfg s' hr').part
   refine ⟨hp, ?_, ?_, ?_⟩
-  · rw [hpart, hp, hdone]; simp [Rx.takenBatch]
-  · intro w; have := hc.flush w; simp [hf, hdr, hdone, Rx.ws] at this; omega
-  · intro w; have := hc.take w; simp [htk, hdone, Rx.takeWs] at this; omega
+  · rw [hpart, hp, hdone]; simp
+  · intro w; have := hc.flush w; simp [hf, hdr, hdone] at this; omega
+  · intro w; have := hc.take w; simp [htk, hdone] at this; omega
 
 /-- **`Trigger::wait_timeout` returns within its budget** (remaining-time accounting, sync.rs:170-183): if every
     `Condvar::wait_timeout` call returns within the time it was asked for plus a slack `δ`, the total time spent
@@ -195,7 +197,7 @@ example : ∃ s, Reachable demoCfg s ∧ s.callsPerBatch = [3, 1] ∧ s.waits = 
 
 example : ∃ s, Reachable demoCfg s ∧ s.senderAlive = false ∧ s.rx = .done ∧ s.tornDown = false ∧
     s.fired = [7] ∧ s.firstAttempts = [[1], [2]] :=
-  ⟨_, ⟨demo ++ [.dropSender, .rxOutcome .panicSync, .rxTake, .rxBegin], rfl⟩, by decide⟩
+  ⟨_, ⟨demo ++ [.dropSender, .rxOutcome .panicSync, .rxFireFlush, .rxTake, .rxBegin], rfl⟩, by decide⟩
 
 /-- The hypotheses of the bounded-liveness theorems are satisfiable: with `retryMax = 0` the bound for flush
     callbacks is 5; from the reachable state in which watcher 7 is attached to the pending batch, this execution
@@ -205,7 +207,7 @@ def liveCfg : Cfg := { cap := 4, retryMax := 0, retryStep := 700, retryCap := 10
 example : ∃ s, Reachable liveCfg s ∧ 7 ∈ s.pendFlushW ∧
     ∃ ls s', run (step liveCfg) s ls = some s' ∧ 4 * liveCfg.retryMax + 5 < countSel Label.isRx ls ∧ 7 ∈ s'.fired :=
   ⟨_, ⟨[.send 1, .whenFlushed 7], rfl⟩, by decide,
-   [.rxTake, .rxBegin, .send 2, .rxOutcome (.failRetry [1]), .rxTake, .rxBegin, .rxOutcome .panicAsync], _, rfl,
+   [.rxTake, .rxBegin, .send 2, .rxOutcome (.failRetry [1]), .rxFireFlush, .rxTake, .rxBegin, .rxOutcome .panicAsync], _, rfl,
    by decide, by decide⟩
 
 /-- … and `drain_on_close`: sender dropped with one item queued; 4·0 + 7 < 8 receiver steps cannot all be taken
